@@ -8,7 +8,7 @@
    {"op":"pair","a":s,"b":t}      -> per flag combination: do the outputs coincide, pair triggers
    {"op":"scope","scope":k,"snake":b,"names":[..],"fixed":[..]} -> python names of a scope, refusal
    {"op":"calls","calls":[[k, name],..]}  -> one RUN: process_name with flag combination k on each name, in order
-   {"op":"method","snake":b,"sub":b,"ret":s,"vars":[[name, has_default],..]}
+   {"op":"method","snake":b,"sub":b,"ret":s,"vars":[[name, has_default(, serialize?)],..]}
                                   -> the method scope: parameters in `def` order, the four helper locals after
                                      `get_variable_names`, does the `def` compile, what a call sends / returns
                                      (or which exception), the four method triggers, `Supported_18m`
@@ -62,6 +62,7 @@ partial def encVal : Val → Json
   | .resp q v => Json.mkObj [("resp", Json.arr #[encVal q, encVal v])]
   | .data r => Json.mkObj [("data", encVal r)]
   | .parsed d => Json.mkObj [("parsed", encVal d)]
+  | .ser v => Json.mkObj [("ser", encVal v)]
 
 def encMethodErr : MethodErr → Json
   | .syntaxError => Json.mkObj [("err", "SyntaxError")]
@@ -152,7 +153,8 @@ def handle (j : Json) : Except String Json := do
     let ret := (← fieldStr j "ret").toList
     let vars ← (← (← field j "vars").getArr?).toList.mapM fun x => do
       let a ← x.getArr?
-      pure (⟨(← a[0]!.getStr?).toList, !(← a[1]!.getBool?)⟩ : Var)
+      let ser := match a[2]? with | some (Json.bool b) => b | _ => false
+      pure (⟨(← a[0]!.getStr?).toList, !(← a[1]!.getBool?), ser⟩ : Var)
     let L := getVariableNames (argNames sn vars)
     let names := vars.map (·.name)
     pure <| Json.mkObj [
